@@ -58,6 +58,21 @@ m("c19-cap-ge", "asm/emitter.go", "\tif a.n+len(d) > len(a.code) {\n\t\tpanic(fm
 m("c19-nil-emitbytes-addr", "asm/emitter.go", "\t_, _ = a.write(b)\n\ta.address += uint32(len(b))", "\tif n, _ := a.write(b); n > 0 {\n\t\ta.address += uint32(len(b))\n\t}", ["C19"])
 m("c19-partial-write", "asm/emitter.go", "\tif a.n+len(d) > len(a.code) {\n\t\tpanic(fmt.Errorf(\"not enough space\"))\n\t}\n\n\tn := copy", "\tif a.n+len(d) > len(a.code) {\n\t\tcopy(a.code[a.n:], d)\n\t\tpanic(fmt.Errorf(\"not enough space\"))\n\t}\n\n\tn := copy", ["C19"])
 
+# ---- C01 / C02 / C08 (CPU)
+m("c01-inx-forgets-n", "emulator/cpu65c816/cpu.go", "\t\tcpu.RXl++\n\t\tcpu.setZN8(cpu.RXl)", "\t\tcpu.RXl++\n\t\tcpu.setZ8(cpu.RXl)", ["C01", "C02"])
+m("c01-dpx-no-wrap-both", "emulator/cpu65c816/cpu.go", "\t\t\taddr = uint16(arg8) + cpu.RX + cpu.RD\n", "\t\t\taddr = uint16(arg8) + cpu.RX + cpu.RD\n\t\t\tif uint32(arg8)+uint32(cpu.RX)+uint32(cpu.RD) > 0xFFFF {\n\t\t\t\taddr |= 0x8000\n\t\t\t}\n", ["C01"])
+m("c01-plb-flags16", "emulator/cpualt/cpu.go", "\tcpu.RDBR = cpu.pull()\n\tcpu.setZN8(cpu.RDBR)", "\tcpu.RDBR = cpu.pull()\n\tcpu.setZN16(uint16(cpu.RDBR))", ["C01", "C02"])
+m("c01-mode-changed", "emulator/cpualt/cpu.go", "{0xb6, \"ldx\", m_DP_Y,", "{0xb6, \"ldx\", m_DP_X,", ["C01", "C02"])
+m("c01-xba-flags", "emulator/cpu65c816/cpu.go", "\t\tcpu.RA = newh | newl\n\t\tcpu.setZN8(byte(newl))", "\t\tcpu.RA = newh | newl\n\t\tcpu.setZN16(cpu.RA)", ["C01"])
+m("c01-decimal-carry", "emulator/cpu65c816/cpu.go", "\t\tif r > 0x9 {\n\t\t\tr += 0x6\n\t\t}", "\t\tif r > 0x9 && n < 3 {\n\t\t\tr += 0x6\n\t\t}", ["C01"])
+m("c02-cycle-table-alt", "emulator/cpualt/cpu_tables.go", "var decCycles_flagM = [256]byte{\n\t0, 1, 0, 1, 2, 1, 2, 1,", "var decCycles_flagM = [256]byte{\n\t0, 1, 0, 1, 2, 1, 1, 1,", ["C02"])
+m("c02-alt-mask-dropped", "emulator/cpualt/bus.go", "func (b *Bus) eaRead16_cross(ea uint32) uint16 {\n\tll := b.Read[ea>>4](ea)\n\tea = (ea + 1) & 0x00ffffff // wrap on 24bits", "func (b *Bus) eaRead16_cross(ea uint32) uint16 {\n\tll := b.Read[ea>>4](ea)\n\tea = (ea + 1) & 0x00fffffe // wrap on 24bits", ["C02"])
+m("c02-alt-stopped", "emulator/cpualt/cpu.go", "func (cpu *CPU) op_stp() {\n\tcpu.Stopped = true", "func (cpu *CPU) op_stp() {\n\tcpu.Stopped = cpu.E == 0", ["C02"])
+m("c02-emu-stack-alt", "emulator/cpualt/cpu.go", "\tcpu.SP--\n\n\tif cpu.E == 1 {\n\t\tcpu.SP = cpu.SP & 0x00FF\n\t\tcpu.SP = cpu.SP | 0x1000", "\tcpu.SP--\n\n\tif cpu.E == 1 {\n\t\tcpu.SP = cpu.SP & 0x00FF\n\t\tcpu.SP = cpu.SP | 0x0100", ["C02"])
+m("c08-prim-mask-removed", "emulator/cpu65c816/cpu.go", "\tea &= 0x00ffffff\n", "", ["C08", "C02"])
+m("c08-alt-write-mask", "emulator/cpualt/bus.go", "func (b *Bus) eaWrite16_cross(ea uint32, value uint16) {\n\tll := byte(value)\n\thh := byte(value >> 8)\n\tb.Write[ea>>4](ea, ll)\n\tea = (ea + 1) & 0x00ffffff // wrap on 24bits", "func (b *Bus) eaWrite16_cross(ea uint32, value uint16) {\n\tll := byte(value)\n\thh := byte(value >> 8)\n\tb.Write[ea>>4](ea, ll)\n\tea = (ea + 1)", ["C08"])
+m("c08-both-abs-cross", "emulator/cpu65c816/cpu.go", "\tcpu.Bus.EaWrite((ea+1)&0x00ffffff, hh) // wrap on 24bits", "\tcpu.Bus.EaWrite((ea + 1), hh)", ["C08"])
+
 def sh(cmd, **kw):
     return subprocess.run(cmd, shell=True, text=True, capture_output=True, **kw)
 
